@@ -142,6 +142,28 @@ class DQEval:
                 if self.conj_rule is None:
                     raise Shape('nested conj')
                 return self.conj_rule(v)
+            if isinstance(e.func, ast.Attribute) and not e.args and not e.keywords:
+                # a zero-argument helper method of the dual-quaternion classes (a private _point_conj ...): its single return,
+                # read like conj, applied to the receiver's value
+                g = None
+                for cn in ('UnitDualQuaternion', 'DualQuaternion'):
+                    c = self.prog.classes.get(cn)
+                    if c is not None:
+                        k, mem = self.prog.lookup_member(c, e.func.attr)
+                        if mem is not None and hasattr(mem, 'node') and getattr(mem, 'selfname', None):
+                            g = mem
+                            break
+                if g is not None and getattr(self, '_depth', 0) < 3:
+                    rets = [r for r in own_walk(g.node) if isinstance(r, ast.Return) and r.value is not None]
+                    if len(rets) == 1:
+                        v = self.dq(e.func.value)
+                        sub = DQEval.__new__(DQEval)
+                        sub.prog = self.prog
+                        sub.env = {g.selfname: v}
+                        sub.conj_rule = self.conj_rule
+                        sub._depth = getattr(self, '_depth', 0) + 1
+                        from ..cfg import pure_locals, _subst_pure
+                        return sub.dq(canon(FuncInfo.of(g), _subst_pure(rets[0].value, pure_locals(g.node)), inline=False))
             b = matches('DualQuaternion(_A, _B)', e) or matches('UnitDualQuaternion(_A, _B)', e)
             if b is not None:
                 return (self.q(b['_A']), self.q(b['_B']))
@@ -210,3 +232,92 @@ def check_point_route(run, rule='R22'):
         run.violation(rule, f.key, construct, 'for q = r + eps (1/2 t r) the dual part of the product composes to [%s], not to [%s]: the point is '
                       '%s' % (dual, want, 'rotated but not translated (the conjugate used cancels the translation: q p q~ needs the conjugate '
                                          'r~ - eps d~)' if dual == r * p * R else 'not mapped to R p + t'), f=f, node=ret)
+
+
+def check_pose_pair(run, rule='R22'):
+    """Construction from an SE3 and the way back, in the same algebra.  The constructor stores (real, dual) built from
+    S = UnitQuaternion(T.R) (atom r) and D = Quaternion.Pure(T.t) (atom t); the pair must be (r, 1/2 t r).  SE3() must read the
+    translation back as a quaternion expression over (real, dual) that evaluates to t on that pair (2 d r~), and the rotation
+    from the real part.  Quaternion products are not commutative: r~ d is r~ t r / 2, the translation rotated back."""
+    prog = run.prog
+    from ..cfg import pure_locals, _subst_pure
+    r, t = NC.atom('r'), NC.atom('t')
+    # ---- constructor
+    g = prog.func('DualQuaternion:UnitDualQuaternion.__init__')
+    gi = FuncInfo.of(g)
+    env = pure_locals(g.node)
+    stores = {'real': [], 'dual': []}
+    for st in own_walk(g.node):
+        if isinstance(st, ast.Assign) and len(st.targets) == 1 and isinstance(st.targets[0], ast.Attribute) and st.targets[0].attr in stores \
+                and isinstance(st.targets[0].value, ast.Name) and st.targets[0].value.id == g.selfname:
+            stores[st.targets[0].attr].append(st)
+
+    class _Ctor(DQEval):
+        def __init__(self):
+            self.prog = prog
+            self.env = {}
+            self.conj_rule = None
+
+        def q(self, e):
+            e2 = canon(gi, e, inline=False)
+            if matches('UnitQuaternion(_T.R)', e2) is not None:
+                return r
+            if matches('Quaternion.Pure(_T.t)', e2) is not None or matches('pure(_T.t)', e2) is not None:
+                return t
+            bs = matches('Quaternion.Pure(_K * _T.t)', e2) or matches('Quaternion.Pure(_T.t * _K)', e2)
+            if bs is not None and isinstance(bs['_K'], ast.Constant) and isinstance(bs['_K'].value, (int, float)):
+                return t.scale(Fraction(bs['_K'].value).limit_denominator(10**6))     # the pure quaternion is linear in the vector
+            bs = matches('Quaternion.Pure(_T.t / _K)', e2)
+            if bs is not None and isinstance(bs['_K'], ast.Constant) and isinstance(bs['_K'].value, (int, float)) and bs['_K'].value != 0:
+                return t.scale(1 / Fraction(bs['_K'].value).limit_denominator(10**6))
+            return DQEval.q(self, e)
+    ev = _Ctor()
+    n_ok = 0
+    for part, want in (('real', r), ('dual', t.scale(Fraction(1, 2)) * r)):
+        decided = False
+        for st in stores[part]:
+            x = _subst_pure(st.value, env)
+            try:
+                got = ev.q(x)
+            except Shape:
+                continue           # the (real, dual) passthrough arm and the default arm are R13/R22 pair integrity's subject
+            decided = True
+            if got == want:
+                run.holds(rule, g.key, 'from SE3: %s part' % part, '%s = %s over r = UnitQuaternion(T.R), t = Pure(T.t)' % (part, want), f=g, node=st)
+                n_ok += 1
+            else:
+                run.violation(rule, g.key, 'from SE3: %s part' % part, 'the %s part stored for a pose (R, t) is [%s]; the dual quaternion of the motion p -> R p + t, '
+                              'which the product and the point route are composed over, has [%s] (quaternion products do not commute: r t / 2 '
+                              'is the motion p -> R p + R t)' % (part, got, want), f=g, node=st)
+        if not decided:
+            run.error('R22: UnitDualQuaternion.__init__: no store of the %s part built from UnitQuaternion(T.R) / Quaternion.Pure(T.t)' % part)
+    # ---- SE3()
+    f = prog.func('DualQuaternion:UnitDualQuaternion.SE3')
+    fi = FuncInfo.of(f)
+    envf = pure_locals(f.node)
+    rets = [x for x in own_walk(f.node) if isinstance(x, ast.Return) and x.value is not None]
+    if len(rets) != 1:
+        run.error('R22: UnitDualQuaternion.SE3 has %d returns' % len(rets))
+        return
+    e = canon(fi, _subst_pure(rets[0].value, envf), inline=False)
+    b = matches('SE3(rt2tr(_R, _X.v))', e) or matches('SE3(rt2tr(_R, _X.v), check=False)', e) or matches('SE3.Rt(_R, _X.v)', e)
+    if b is None:
+        run.error('R22: UnitDualQuaternion.SE3: return %s is not SE3(rt2tr(<rotation>, <quaternion>.v))' % src(rets[0].value, 60))
+        return
+    okR = any(matches(p_, b['_R']) is not None for p_ in ('q2r(self.real.A)', 'q2r(self.real._A)', 'self.real.R', 'q2r(self.real.vec)'))
+    (run.holds if okR else run.violation)(rule, f.key, 'SE3(): rotation', 'rotation matrix of the real part' if okR else
+                                          'the rotation is %s, not the rotation matrix of the real part' % src(b['_R'], 40), f=f, node=rets[0])
+    try:
+        sub = DQEval.__new__(DQEval)
+        sub.prog = prog
+        sub.env = {f.selfname: (r, t.scale(Fraction(1, 2)) * r)}
+        sub.conj_rule = None
+        got = sub.q(b['_X'])
+    except Shape as ex:
+        run.error('R22: UnitDualQuaternion.SE3: unrecognised %s' % ex)
+        return
+    if got == t:
+        run.holds(rule, f.key, 'SE3(): translation', 'on the pair (r, t r / 2) the translation expression evaluates to t', f=f, node=rets[0])
+    else:
+        run.violation(rule, f.key, 'SE3(): translation', 'on the pair (r, 1/2 t r) of the motion (R, t) the translation read back is [%s], not [t]: '
+                      'SE3() returns a different pose than the one the dual quaternion moves points by' % got, f=f, node=rets[0])
